@@ -1,9 +1,9 @@
 Json.vo Json.glob Json.v.beautified Json.required_vo: Json.v /verif/coq/Base.vo /verif/coq/Layout.vo /verif/coq/Valid.vo
 Json.vio: Json.v /verif/coq/Base.vio /verif/coq/Layout.vio /verif/coq/Valid.vio
 Json.vos Json.vok Json.required_vos: Json.v /verif/coq/Base.vos /verif/coq/Layout.vos /verif/coq/Valid.vos
-Proofs_C15.vo Proofs_C15.glob Proofs_C15.v.beautified Proofs_C15.required_vo: Proofs_C15.v /verif/coq/Base.vo /verif/coq/Layout.vo /verif/coq/LayoutInd.vo /verif/coq/Valid.vo Json.vo
-Proofs_C15.vio: Proofs_C15.v /verif/coq/Base.vio /verif/coq/Layout.vio /verif/coq/LayoutInd.vio /verif/coq/Valid.vio Json.vio
-Proofs_C15.vos Proofs_C15.vok Proofs_C15.required_vos: Proofs_C15.v /verif/coq/Base.vos /verif/coq/Layout.vos /verif/coq/LayoutInd.vos /verif/coq/Valid.vos Json.vos
+Proofs_C15.vo Proofs_C15.glob Proofs_C15.v.beautified Proofs_C15.required_vo: Proofs_C15.v /verif/coq/Base.vo /verif/coq/Layout.vo /verif/coq/LayoutInd.vo /verif/coq/Valid.vo Json.vo /verif/coq/Proofs_C11.vo
+Proofs_C15.vio: Proofs_C15.v /verif/coq/Base.vio /verif/coq/Layout.vio /verif/coq/LayoutInd.vio /verif/coq/Valid.vio Json.vio /verif/coq/Proofs_C11.vio
+Proofs_C15.vos Proofs_C15.vok Proofs_C15.required_vos: Proofs_C15.v /verif/coq/Base.vos /verif/coq/Layout.vos /verif/coq/LayoutInd.vos /verif/coq/Valid.vos Json.vos /verif/coq/Proofs_C11.vos
 Props_C15.vo Props_C15.glob Props_C15.v.beautified Props_C15.required_vo: Props_C15.v /verif/coq/Base.vo /verif/coq/Layout.vo /verif/coq/Valid.vo Json.vo Proofs_C15.vo
 Props_C15.vio: Props_C15.v /verif/coq/Base.vio /verif/coq/Layout.vio /verif/coq/Valid.vio Json.vio Proofs_C15.vio
 Props_C15.vos Props_C15.vok Props_C15.required_vos: Props_C15.v /verif/coq/Base.vos /verif/coq/Layout.vos /verif/coq/Valid.vos Json.vos Proofs_C15.vos
